@@ -11,6 +11,9 @@ A case is [op, args...] (see run_C19 in coq/Model/C19_Run.v):
   7..12          primitives (int(s,16), parse_color, _parse_style_str, _expand_classname,
                  str.split, str(int)/format 02x)
   13 end to end  [13, rules, style_str]                   resolve -> encode 24 bit -> decode
+  14 from_dict   [14, most_precise, items, style_str]     Style.from_dict(dict, priority)
+  15 transform   [15, tree, attrs, opp_table, adj_table]  style_transformation.*.transform_attrs
+  16 caches      [16, queries]                            a query history over fresh caches
 """
 import itertools
 
@@ -21,7 +24,7 @@ TABLES = ["Whitespace", "C19_Palette"]
 MODELS = [("c19", "Extract/ExC19.v", "run_C19")]
 OPN = {1: "cascade", 2: "escape-code", 3: "sgr-decode", 4: "ansi-text", 5: "map256", 6: "map16",
        7: "int16", 8: "parse_color", 9: "parse_style_str", 10: "expand_classname", 11: "split",
-       12: "int-format", 13: "end-to-end"}
+       12: "int-format", 13: "end-to-end", 14: "from_dict", 15: "transform", 16: "cache-history"}
 DEPTHS = {1: "DEPTH_1_BIT", 4: "DEPTH_4_BIT", 8: "DEPTH_8_BIT", 24: "DEPTH_24_BIT"}
 FIELDS = ("color", "bgcolor", "bold", "underline", "strike", "italic", "blink", "reverse", "hidden")
 HEX = "0123456789abcdefABCDEF"
@@ -160,7 +163,74 @@ def impl_run(case):
         seq = P["vt100"]._EscapeCodeCache(P["ColorDepth"].DEPTH_24_BIT)[a]
         back = decode_seq(seq)
         return [0, enc_attrs(a), S(seq), enc_attrs(back)]
+    if op == 14:
+        from prompt_toolkit.styles.style import Priority
+        _, mp, items, style_str = case
+        d = {unS(n): unS(x) for n, x in items}
+        assert len(d) == len(items)
+        st = P["Style"].from_dict(d, priority=Priority.MOST_PRECISE if mp else Priority.DICT_KEY_ORDER)
+        return [0, enc_attrs(st.get_attrs_for_style_str(unS(style_str)))]
+    if op == 15:
+        t = build_transf(case[1])
+        return [0, enc_attrs(t.transform_attrs(dec_attrs(case[2])))]
+    if op == 16:
+        return run_history(case[1], shared=True)
     raise ValueError(op)
+
+
+def build_transf(x):
+    from prompt_toolkit.styles import style_transformation as T
+    k = x[0]
+    if k == 0:
+        return T.SwapLightAndDarkStyleTransformation()
+    if k == 1:
+        return T.ReverseStyleTransformation()
+    if k == 2:
+        return T.SetDefaultColorStyleTransformation(unS(x[1]), unS(x[2]))
+    if k == 3:
+        return T.AdjustBrightnessStyleTransformation(x[3] / 1000.0, x[4] / 1000.0)
+    if k == 4:
+        return T.DummyStyleTransformation()
+    if k == 5:
+        return T.ConditionalStyleTransformation(build_transf(x[2]), bool(x[1]))
+    if k == 6:
+        return T.merge_style_transformations([build_transf(y) for y in x[1]])
+    if k == 7:
+        inner = build_transf(x[1][0]) if x[1] else None
+        return T.DynamicStyleTransformation(lambda: inner)
+    raise ValueError(k)
+
+
+def run_history(queries, shared):
+    """shared: one set of caches for the whole history (fresh at its start);
+    otherwise fresh caches for every query (the uncached answers)"""
+    P = pt()
+    vt = P["vt100"]
+
+    def fresh():
+        vt._16_fg_colors = vt._16ColorCache(bg=False)
+        vt._16_bg_colors = vt._16ColorCache(bg=True)
+        vt._256_colors = vt._256ColorCache()
+        return {}
+    saved = (vt._16_fg_colors, vt._16_bg_colors, vt._256_colors)
+    out = []
+    try:
+        esc = fresh()
+        for q in queries:
+            if not shared:
+                esc = fresh()
+            if q[0] == 0:
+                c = esc.setdefault(q[1], vt._EscapeCodeCache(getattr(P["ColorDepth"], DEPTHS[q[1]])))
+                out.append(S(c[dec_attrs(q[2])]))
+            elif q[0] == 1:
+                cache = vt._16_bg_colors if q[1] else vt._16_fg_colors
+                code, name = cache.get_code((q[2], q[3], q[4]), [unS(e) for e in q[5]])
+                out.append([code, S(name)])
+            else:
+                out.append(vt._256_colors[(q[1], q[2], q[3])])
+    finally:
+        vt._16_fg_colors, vt._16_bg_colors, vt._256_colors = saved
+    return out
 
 
 def impl_case(case):
@@ -285,6 +355,125 @@ def spec_cascade(rules, style_str, default):
     for e in entries:
         out.update(e)
     return out
+
+
+def kernel_opp(c):
+    from colorsys import hls_to_rgb, rgb_to_hls
+    r, g, b = (int(c[i:i + 2], 16) / 255.0 for i in (0, 2, 4))
+    h, l, sat = rgb_to_hls(r, g, b)
+    r, g, b = hls_to_rgb(h, 1 - l, sat)
+    return "%02x%02x%02x" % (int(r * 255), int(g * 255), int(b * 255))
+
+
+def kernel_adj(c, lo, hi):
+    from colorsys import hls_to_rgb, rgb_to_hls
+    tab = pt()["vt100"].ANSI_COLORS_TO_RGB
+    if c in tab:
+        r, g, b = (v / 255.0 for v in tab[c])
+    else:
+        r, g, b = (int(c[i:i + 2], 16) / 255.0 for i in (0, 2, 4))
+    h, l, sat = rgb_to_hls(r, g, b)
+    l = lo + (hi - lo) * l
+    r, g, b = hls_to_rgb(h, l, sat)
+    return "%02x%02x%02x" % (int(r * 255), int(g * 255), int(b * 255))
+
+
+def transf_nodes(x, active=True):
+    yield x, active
+    if x[0] == 5:
+        yield from transf_nodes(x[2], active and bool(x[1]))
+    elif x[0] == 6:
+        for y in x[1]:
+            yield from transf_nodes(y, active)
+    elif x[0] == 7 and x[1]:
+        yield from transf_nodes(x[1][0], active)
+
+
+def kernel_tables(tx, ax):
+    """association tables colour -> kernel value for every colour the
+    transformation tree can meet (closure under both kernels)"""
+    P = pt()
+    cols = set()
+    a = dec_attrs(ax)
+    for c in (a.color, a.bgcolor):
+        if c:
+            cols.add(c)
+    adjs = []
+    for n, _act in transf_nodes(tx):
+        if n[0] == 2:
+            for w in (unS(n[1]), unS(n[2])):
+                try:
+                    cols.add(P["style_mod"].parse_color(w))
+                except ValueError:
+                    pass
+        if n[0] == 3:
+            adjs.append((n[3] / 1000.0, n[4] / 1000.0))
+    lo, hi = adjs[0] if adjs else (0.0, 1.0)
+    cols |= set(P["vt100"].ANSI_COLORS_TO_RGB)       # swap maps ANSI names to ANSI names
+    is6 = lambda c: len(c) == 6 and is_hex(c)   # noqa
+    for _ in range(2):
+        new = set()
+        for c in cols:
+            if is6(c):
+                new.add(kernel_opp(c))
+            if is6(c) or c in P["vt100"].ANSI_COLORS_TO_RGB:
+                new.add(kernel_adj(c, lo, hi))
+        cols |= new
+    # ... and every colour met along the actual path through the tree (any depth)
+    from prompt_toolkit.styles.style_transformation import OPPOSITE_ANSI_COLOR_NAMES as OPPN
+    ansi_rgb = P["vt100"].ANSI_COLORS_TO_RGB
+
+    class Stop(Exception):
+        pass
+
+    def opp_c(c):
+        if c is None or c in ("", "default"):
+            return c
+        if c in OPPN:
+            return OPPN[c]
+        if is6(c):
+            cols.add(c)
+            return kernel_opp(c)
+        raise Stop()
+
+    def walk(x, fg, bg):
+        k = x[0]
+        if k == 0:
+            return opp_c(fg), opp_c(bg)
+        if k == 2:
+            try:
+                if bg in ("", "default"):
+                    bg = P["style_mod"].parse_color(unS(x[2]))
+                if fg in ("", "default"):
+                    fg = P["style_mod"].parse_color(unS(x[1]))
+            except ValueError:
+                raise Stop()
+            return fg, bg
+        if k == 3:
+            if not x[1]:
+                raise Stop()
+            if not x[2] and (not bg or bg == "default") and fg and fg != "ansidefault":
+                if fg in ansi_rgb or is6(fg):
+                    cols.add(fg)
+                    return kernel_adj(fg, lo, hi), bg
+                raise Stop()
+            return fg, bg
+        if k == 5:
+            return walk(x[2], fg, bg) if x[1] else (fg, bg)
+        if k == 6:
+            for y in x[1]:
+                fg, bg = walk(y, fg, bg)
+            return fg, bg
+        if k == 7 and x[1]:
+            return walk(x[1][0], fg, bg)
+        return fg, bg
+    try:
+        walk(tx, a.color, a.bgcolor)
+    except Stop:
+        pass
+    opp = [[S(c), S(kernel_opp(c))] for c in sorted(cols) if is6(c)]
+    adj = [[S(c), S(kernel_adj(c, lo, hi))] for c in sorted(cols) if is6(c) or c in P["vt100"].ANSI_COLORS_TO_RGB]
+    return opp, adj
 
 
 def canon_color(c):
@@ -487,6 +676,69 @@ def oracle(case, res):
         if msg:
             return ("16 map %r exclude %r: %s" % (rgb, ex, msg), {"op": "map16", "family": "nearest16"})
         return None
+    if op == 14:
+        _, mp, items, style_str = case
+        rules = [(unS(n), unS(x)) for n, x in items]
+        if mp:   # more class-name elements = later; equal precision keeps dictionary order
+            prec = lambda r: sum(w.count(".") + 1 for w in r[0].split())   # noqa
+            rules = [r for _, _, r in sorted((prec(r), i, r) for i, r in enumerate(rules))]
+        exp = spec_cascade(rules, unS(style_str), P["DEFAULT"])
+        if isinstance(exp, str):
+            want = {"ValueError": 1, "AssertionError": 2}[exp]
+            return None if res[0] == want else ("expected %s, got %r" % (exp, res), {"op": "from_dict", "family": "error"})
+        if res[0] != 0:
+            return ("from_dict raised %r for a well-formed dictionary" % (res,), {"op": "from_dict", "family": "error"})
+        got = dict(zip(FIELDS, dec_attrs(res[1])))
+        bad = [k for k in FIELDS if got[k] != exp[k]]
+        if bad:
+            return ("%s: attribute %s = %r, the last applicable rule in %s order gives %r" % (
+                "MOST_PRECISE" if mp else "DICT_KEY_ORDER", bad[0], got[bad[0]], "precision" if mp else "dictionary", exp[bad[0]]),
+                {"op": "from_dict", "family": "most-precise" if mp else "key-order"})
+        return None
+    if op == 15:
+        a0 = dec_attrs(case[2])
+        nodes = list(transf_nodes(case[1]))
+        if res[0] != 0:
+            bad_cfg = False
+            for n, act in nodes:
+                if n[0] == 3 and not n[1]:
+                    bad_cfg = True
+                if n[0] == 2:
+                    for w in (unS(n[1]), unS(n[2])):
+                        try:
+                            spec_color(w)
+                        except ValueError:
+                            bad_cfg = True
+            if bad_cfg or canon_color(a0.color) is None or canon_color(a0.bgcolor) is None:
+                return None
+            adj_active = any(n[0] == 3 and act and not n[2] for n, act in nodes)
+            has_default = a0.color == "default" or any(n[0] == 2 and unS(n[1]) == "default" for n, _ in nodes)
+            fam = "adjust-default" if (res[0] == 1 and adj_active and has_default) else "raise"
+            return ("transformation raised %r on in-domain attributes %r" % (res, tuple(a0)), {"op": "transform", "family": fam})
+        a1 = dec_attrs(res[1])
+        if canon_color(a0.color) is None or canon_color(a0.bgcolor) is None:
+            return None
+        if all(v is not None for v in a0) and any(v is None for v in a1):
+            return ("transformed attributes are not concrete: %r" % (tuple(a1),), {"op": "transform", "family": "concrete"})
+        exp = (canon_color(a1.color), canon_color(a1.bgcolor))
+        if None in exp:
+            return ("transformed colours leave the round-trip domain: %r" % ((a1.color, a1.bgcolor),), {"op": "transform", "family": "domain"})
+        seq = P["vt100"]._EscapeCodeCache(P["ColorDepth"].DEPTH_24_BIT)[a1]
+        back = decode_seq(seq)
+        want = exp + tuple(bool(v) for v in a1[2:])
+        if tuple(back) != want:
+            return ("transformed %r -> %r decodes back to %r" % (tuple(a1), seq, tuple(back)), {"op": "transform", "family": "roundtrip24"})
+        return None
+    if op == 16:
+        if not (isinstance(res, list) and len(res) == len(case[1])):
+            return ("cache history raised %r" % (res,), {"op": "cache-history", "family": "raise"})
+        pure = run_history(case[1], shared=False)
+        for k, (x, y) in enumerate(zip(res, pure)):
+            if sx_norm(x) != sx_norm(y):
+                return ("query %d %r: cached answer %r, uncached answer %r (after the %d earlier queries)" % (
+                    k, case[1][k], unS(x) if case[1][k][0] == 0 else x, unS(y) if case[1][k][0] == 0 else y, k),
+                    {"op": "cache-history", "family": "cache"})
+        return None
     if op == 13:
         if res[0] != 0:
             try:
@@ -573,10 +825,28 @@ def gen_cascade(chk, dist):
     for _ in range(6000 if thorough else 700):
         rl = [rng.choice(rule_opts if rng.random() < 0.7 else [(n, s) for n in NAMES_RAND[:9] for s in STYLES_RAND[:12]])
               for _ in range(rng.randint(0, 3))]
+        if len(rl) >= 2 and rng.random() < 0.4:
+            rl[-1] = rl[0]                      # first rule repeated after the others
         s = " ".join(rng.choice(PARTS_SMALL + PARTS_RAND[:6]) for _ in range(rng.randint(0, 3)))
         for sh in split_sheets([rule_sx(r) for r in rl]):
             cases.append([1, 1, sh, S(s), DEFAULT_SX])
             dist["merge_splits"] += 1
+    # the very same rule repeated around a conflicting one - across sheets and within one sheet
+    rep_strs = ["class:a class:b", "class:a.b", "class:b,a", "", "class:b class:a nobold"]
+    for n in NAMES_SMALL:
+        for sa in STYLES_SMALL:
+            for sb in STYLES_SMALL:
+                if sa == sb:
+                    continue
+                ra, rb = rule_sx((n, sa)), rule_sx((n, sb))
+                for seq in ([ra, rb, ra], [ra, ra, rb], [rb, ra, ra, rb], [ra, rb, rb, ra]):
+                    for st in rep_strs:
+                        if not thorough and rng.random() > 0.25:
+                            continue
+                        cases.append([1, 0, [seq], S(st), DEFAULT_SX])
+                        for sh in split_sheets(seq) if len(seq) == 3 else [[seq[:1], seq[1:3], seq[3:]], [seq[:2], seq[2:]], [seq[:1], seq[1:]], [seq[:3], seq[3:]]]:
+                            cases.append([1, 1, sh, S(st), DEFAULT_SX])
+                            dist["merge_repeated_rule"] += 1
     # structured random: larger vocabulary, odd whitespace, errors, other defaults
     seps = [" ", " ", "  ", "\t", "\n", "\xa0", " ", " \x1f"]
     for _ in range(40000 if thorough else 5000):
@@ -588,6 +858,8 @@ def gen_cascade(chk, dist):
                    [rng.choice([None, 0, 1]) for _ in range(7)])
         else:
             d = DEFAULT_SX
+        if rl and rng.random() < 0.3:
+            rl.append(rng.choice(rl))           # an exact repeat of an earlier rule
         rs = [rule_sx(r) for r in rl]
         if rng.random() < 0.3 and rs:
             k = rng.randint(0, len(rs))
@@ -818,6 +1090,200 @@ def gen_e2e(chk, dist):
     return cases
 
 
+def gen_fromdict(chk, dist):
+    rng = chk.rng
+    thorough = chk.tier == "thorough"
+    names = ["a", "b", "a.b", "a b", "", "b a", "a.b b", "c", "a b c", "a.b.c", "b.a", "a  b", "a.b.c b"]
+    styles = STYLES_SMALL + ["underline", "nounderline", "#00ff00", "bg:ansired nobold", "noinherit", "bogus"]
+    strs = ["class:a", "class:b class:a", "class:a.b", "class:a,b", "class:a.b.c class:b", "class:a class:b class:c", "class:b.a bold", ""]
+    cases = []
+    # exhaustive small: all ordered pairs / triples of distinct keys from the small vocabulary
+    small = ["a", "a.b", "a b", "", "b"]
+    for k in (2, 3):
+        for keys in itertools.permutations(small, k):
+            for _ in range(3 if thorough else 1):
+                items = [rule_sx((n, rng.choice(STYLES_SMALL))) for n in keys]
+                for st in strs[:5]:
+                    for mp in (0, 1):
+                        cases.append([14, mp, items, S(st)])
+    for _ in range(12000 if thorough else 1500):
+        keys = rng.sample(names, rng.randint(0, 6))
+        items = [rule_sx((n, rng.choice(styles))) for n in keys]
+        cases.append([14, rng.randint(0, 1), items, S(rng.choice(strs))])
+    dist["from_dict"] = len(cases)
+    return cases
+
+
+def gen_transform(chk, dist):
+    rng = chk.rng
+    thorough = chk.tier == "thorough"
+    P = pt()
+    colors = ["", "default", "ansired", "ansidefault", "ansibrightblack", "ansiwhite", "ff0000", "FE00aa", "000000", "ffffff", "808080", "0a0b0c", None]
+
+    def leaf():
+        r = rng.random()
+        if r < 0.3:
+            return [0]
+        if r < 0.4:
+            return [1]
+        if r < 0.6:
+            return [2, S(rng.choice(["#ff0000", "ansiblue", "default", "", "AliceBlue", "#abc", "bogus", "ansiteal"])),
+                    S(rng.choice(["#000000", "ansiwhite", "default", "", "#zzz", "#123456"]))]
+        if r < 0.9:
+            lo, hi = rng.choice([(0, 1000), (300, 1000), (0, 700), (200, 800), (500, 500), (1000, 0), (0, 1500), (-100, 1000)])
+            return [3, 1 if (0 <= lo <= 1000 and 0 <= hi <= 1000) else 0, 1 if (lo, hi) == (0, 1000) else 0, lo, hi]
+        return [4]
+
+    def tree(d):
+        r = rng.random()
+        if d <= 0 or r < 0.5:
+            return leaf()
+        if r < 0.65:
+            return [5, rng.randint(0, 1), tree(d - 1)]
+        if r < 0.9:
+            return [6, [tree(d - 1) for _ in range(rng.randint(0, 3))]]
+        return [7, [tree(d - 1)] if rng.random() < 0.7 else []]
+    cases = []
+
+    def add(t, ax):
+        # at most one brightness setting per tree (one kernel table per case)
+        adjs = [n for n, _ in transf_nodes(t) if n[0] == 3]
+        for n in adjs[1:]:
+            n[1:] = adjs[0][1:]
+        opp, adj = kernel_tables(t, ax)
+        cases.append([15, t, ax, opp, adj])
+    for fg in colors:
+        for bg in colors:
+            for t in ([0], [1], [2, S("#00ff00"), S("ansiblack")], [3, 1, 0, 300, 1000], [3, 1, 0, 0, 600], [3, 1, 1, 0, 1000], [4],
+                      [6, [[0], [3, 1, 0, 200, 900]]], [6, [[2, S("default"), S("")], [3, 1, 0, 400, 1000]]], [5, 0, [0]], [7, []]):
+                add([x if not isinstance(x, list) else list(x) for x in t], A_(fg, bg, [rng.choice([0, 1]) for _ in range(7)]))
+    for _ in range(8000 if thorough else 1200):
+        r = rng.random()
+        def col():
+            q = rng.random()
+            if q < 0.5:
+                return "%06x" % rng.getrandbits(24)
+            if q < 0.6:
+                return "".join(rng.choice(HEX) for _ in range(6))
+            return rng.choice(colors + P["NAMES"])
+        add(tree(3), A_(col(), col(), [rng.choice([0, 1, None]) if rng.random() < 0.2 else rng.choice([0, 1]) for _ in range(7)]))
+    dist["transform"] = len(cases)
+    return cases
+
+
+def gen_cache_history(chk, dist):
+    rng = chk.rng
+    thorough = chk.tier == "thorough"
+    P = pt()
+    tab16 = [("%02x%02x%02x" % v) for k, v in P["vt100"].ANSI_COLORS_TO_RGB.items() if k != "ansidefault"]
+    near = lambda c: "%06x" % max(0, min(0xFFFFFF, int(c, 16) + rng.choice([-0x10000, 0x10000, -0x100, 0x100, -1, 1, 0])))   # noqa
+    cases = []
+
+    def esc_q(depth, fg, bg):
+        return [0, depth, A_(fg, bg, [rng.choice([0, 1]) if rng.random() < 0.2 else 0 for _ in range(7)])]
+    # every ordered pair of (fg, bg) queries over palette colours and their neighbours, at 4 bit:
+    # the second query meets whatever the first one left in the caches
+    pool = tab16[:8] if not thorough else tab16
+    for c in pool:
+        for d in pool:
+            n = near(c)
+            for h in ([esc_q(4, n, c), esc_q(4, "", c)], [esc_q(4, "", c), esc_q(4, n, c)], [esc_q(4, n, c), esc_q(4, d, c)],
+                      [esc_q(4, c, d), esc_q(4, d, c), esc_q(4, "", d), esc_q(4, "", c)]):
+                if thorough or rng.random() < 0.5:
+                    cases.append([16, h])
+    for _ in range(5000 if thorough else 700):
+        cols = [rng.choice(tab16) if rng.random() < 0.6 else "%06x" % rng.getrandbits(24) for _ in range(3)]
+        cols += [near(cols[0]), near(cols[1]), "", "ansired"]
+        h = []
+        for _k in range(rng.randint(2, 7)):
+            r = rng.random()
+            if r < 0.65:
+                h.append(esc_q(rng.choice([4, 4, 4, 8, 24, 1]), rng.choice(cols), rng.choice(cols)))
+            elif r < 0.85:
+                c = rng.choice(cols[:5])
+                v = int(c, 16)
+                ex = rng.choice([[], [S(rng.choice(P["NAMES"]))], [S("")]])
+                h.append([1, rng.randint(0, 1), v >> 16, (v >> 8) & 255, v & 255, ex])
+            else:
+                v = int(rng.choice(cols[:5]), 16)
+                h.append([2, v >> 16, (v >> 8) & 255, v & 255])
+        cases.append([16, h])
+    dist["cache_history"] = len(cases)
+    return cases
+
+
+# --------------------------------------------------------------------------
+# thorough tier: the whole 2^24 cube of the 256-colour map, real cache against
+# an independent oracle (per-channel nearest cube level + best gray), sharded
+
+def _cube_structure(tab):
+    """(levels, grays) if tab[16:] is the 6x6x6 product followed by grays (+ duplicates), else None"""
+    n = len(tab)
+    levels = sorted(set(c[0] for c in tab[16:232]))
+    if len(levels) != 6 or n < 232:
+        return None
+    k = 16
+    for r in levels:
+        for g in levels:
+            for b in levels:
+                if tab[k] != (r, g, b):
+                    return None
+                k += 1
+    rest = [(i, tab[i]) for i in range(232, n)]
+    if any(c[0] != c[1] or c[1] != c[2] for _, c in rest):
+        return None
+    return levels, rest
+
+
+def _sweep_worker(args):
+    r_lo, r_hi = args
+    vt = pt()["vt100"]
+    tab = vt._256ColorCache().colors
+    st = _cube_structure(tab)
+    bad = []
+    if st is not None:
+        levels, rest = st
+        near = []
+        for v in range(256):
+            best = min(range(6), key=lambda i: ((v - levels[i]) ** 2, i))
+            near.append((best, (v - levels[best]) ** 2))
+    n = 0
+    for r in range(r_lo, r_hi):
+        cache = vt._256ColorCache()
+        miss = cache.__missing__
+        for g in range(256):
+            for b in range(256):
+                got = miss((r, g, b))
+                if st is not None:
+                    (ri, dr), (gi, dg), (bi, db) = near[r], near[g], near[b]
+                    exp, dbest = 16 + 36 * ri + 6 * gi + bi, dr + dg + db
+                    for i, c in rest:
+                        d = (r - c[0]) ** 2 + (g - c[1]) ** 2 + (b - c[2]) ** 2
+                        if d < dbest:
+                            exp, dbest = i, d
+                else:
+                    exp = min(range(16, len(tab)), key=lambda i: (sqd((r, g, b), tab[i]), i))
+                n += 1
+                if got != exp and len(bad) < 5:
+                    bad.append(((r, g, b), got, exp))
+    return n, bad
+
+
+def sweep_256(chk, workers=8):
+    import multiprocessing as mp
+    ctx = mp.get_context("fork")
+    shards = [(r, r + 16) for r in range(0, 256, 16)]
+    total, bad = 0, []
+    with ctx.Pool(workers) as pool:
+        for n, b in pool.imap_unordered(_sweep_worker, shards):
+            total += n
+            bad += b
+    for rgb, got, exp in bad[:5]:
+        chk.violation("oracle", "map256 full sweep: %r -> %d, nearest entry with index >= 16 (lowest index) is %d  [input: _256ColorCache()[%r]]" % (rgb, got, exp, rgb),
+                      {"op": "map256", "family": "nearest256"}, {"case": [5, rgb[0], rgb[1], rgb[2]], "observed": got, "expected": exp})
+    return total
+
+
 def gen_malformed(chk):
     return [[1], [1, 0, [], S(""), DEFAULT_SX], [2, 24], [99, 1], [5, 1, 2], [6, 0, 1, 2, 3], [1, 7, [[]], S(""), DEFAULT_SX], [3, [[1]]]]
 
@@ -826,7 +1292,7 @@ def gen_malformed(chk):
 
 def nontrivial(case, res):
     op = case[0]
-    if op in (1, 13):
+    if op in (1, 13, 14, 15):
         return isinstance(res, list) and res and res[0] == 0 and res[1] != DEFAULT_SX
     if op == 2:
         return len(res) == 2 and len(res[1]) > 4
@@ -846,7 +1312,31 @@ def show_input(c):
         return "Style(%r) style_str=%r, 24 bit" % ([(unS(n), unS(s)) for n, s in c[1]], unS(c[2]))
     if op in (4, 7, 8, 9, 10, 11):
         return "%s(%r)" % (OPN[op], unS(c[1]))
+    if op == 14:
+        return "Style.from_dict(%r, %s) style_str=%r" % ({unS(n): unS(x) for n, x in c[2]}, "MOST_PRECISE" if c[1] else "DICT_KEY_ORDER", unS(c[3]))
+    if op == 15:
+        return "transformation %s on Attrs%r" % (show_transf(c[1]), tuple(dec_attrs(c[2])))
+    if op == 16:
+        return "fresh caches, then " + "; ".join(
+            ("_EscapeCodeCache(%s)[Attrs%r]" % (DEPTHS[q[1]], tuple(dec_attrs(q[2]))) if q[0] == 0 else
+             "_16_%s_colors.get_code(%r, %r)" % ("bg" if q[1] else "fg", tuple(q[2:5]), [unS(e) for e in q[5]]) if q[0] == 1 else
+             "_256_colors[%r]" % (tuple(q[1:4]),)) for q in c[1])
     return "%s%r" % (OPN.get(op, "?"), c[1:])
+
+
+def show_transf(x):
+    k = x[0]
+    if k == 2:
+        return "SetDefaultColor(%r, %r)" % (unS(x[1]), unS(x[2]))
+    if k == 3:
+        return "AdjustBrightness(%s, %s)" % (x[3] / 1000.0, x[4] / 1000.0)
+    if k == 5:
+        return "Conditional(%s, %s)" % (show_transf(x[2]), bool(x[1]))
+    if k == 6:
+        return "merge([%s])" % ", ".join(show_transf(y) for y in x[1])
+    if k == 7:
+        return "Dynamic(%s)" % (show_transf(x[1][0]) if x[1] else "None")
+    return {0: "SwapLightAndDark()", 1: "Reverse()", 4: "Dummy()"}[k]
 
 
 def describe(c, a, m):
@@ -859,6 +1349,8 @@ def describe(c, a, m):
                                                       unS(m[1]) if isinstance(m, list) and len(m) == 2 and isinstance(m[1], list) else m)
     if op in (4, 7, 8, 9, 10, 11):
         return "%s(%r) impl=%r model=%r" % (OPN[op], unS(c[1]), a, m)
+    if op in (14, 15, 16):
+        return "%s impl=%r model=%r" % (show_input(c), a, m)
     return "%s%r impl=%r model=%r" % (OPN.get(op, "?"), c[1:], a, m)
 
 
@@ -876,7 +1368,7 @@ def main(tier):
         return chk.finish()
     pt()
     dist = {k: 0 for k in ("cascade_exhaustive_small", "cascade_three_rules", "merge_splits", "cascade_random",
-                           "escape_all_flags", "escape_random", "sgr_random", "ansi_text")}
+                           "escape_all_flags", "escape_random", "sgr_random", "ansi_text", "merge_repeated_rule")}
     cases = load_corpus(PROP)
     dist["corpus"] = len(cases)
     cases += gen_cascade(chk, dist)
@@ -885,6 +1377,9 @@ def main(tier):
     cases += gen_rgb(chk, dist)
     cases += gen_prims(chk, dist)
     cases += gen_e2e(chk, dist)
+    cases += gen_fromdict(chk, dist)
+    cases += gen_transform(chk, dist)
+    cases += gen_cache_history(chk, dist)
     nm = len(cases)
     t = time.time()
     impl_results = []
@@ -947,6 +1442,11 @@ def main(tier):
                       {"kind": "extraction"}, {"cases": [cases[i] for i in d]}, no_input=True)
 
     timing["vm_crosscheck_s"] = round(time.time() - t, 1)
+    if chk.tier == "thorough":
+        t = time.time()
+        chk.coverage["full_cube_256_triples"] = sweep_256(chk)
+        chk.coverage["evaluations"] += chk.coverage["full_cube_256_triples"]
+        timing["full_cube_sweep_s"] = round(time.time() - t, 1)
     chk.coverage["timing"] = timing
     proof_gate(chk, pr)
     chk.coverage["rule"] = (
